@@ -47,8 +47,16 @@ RULE = (
     "calibrate_to_kbp, time slices, crop_by_distance, downsampled_by (time and position), flip, Scan[frame], Scan[a:b], "
     "Scan[a:b, y, x], crop_by_pixels, and derivations of derived objects. Exhaustive: every history of length <=2 (quick: "
     "plus a 12 % sample of length 3; thorough: all of length 3) over a reduced alphabet on fixed objects (normal, truncated, "
-    "short stream, scan; thorough adds late-in-lead-in, sub-sample start, absent colour, truncated scan). Random: 350/7000 "
-    "confocal histories, 120/1500 histories on channels (numpy- and h5py-backed Continuous, TimeSeries), F,d curves, TIFF "
+    "short stream, scan; thorough adds late-in-lead-in, sub-sample start, absent colour, truncated scan), plus on the same "
+    "objects every history 'ask the source a, derive D, ask the derived object b' for all query pairs (a, b) and D in {time "
+    "slice keeping exactly ONE scan line: first / each interior / last (open end); slice dropping the first line; whole "
+    "slice; crop; copy; calibrate; downsample in time / position; flip | scan: frames 0:1, 1:2, frame -1, spatial crop, copy}, "
+    "'derive, ask derived/source twice in either order', and slice-of-slice 'ask, slice, slice, ask' / 'slice, ask, slice, "
+    "ask' over all pairs of those line slices (all kymographs have dead time between lines, so a one-line slice has a line "
+    "time of its own). Random: 350/7000 confocal histories, 150/3000 confocal histories 'source asked 1-3 queries first, then "
+    "derivations of the newest object (80 % of the time slices cut at scan-line starts: one line, last line, first line, a "
+    "run of lines, bounds jittered by 1 ns / almost a sample) and queries that mostly repeat an earlier query on the newest "
+    "object or an ancestor', 120/1500 histories on channels (numpy- and h5py-backed Continuous, TimeSeries), F,d curves, TIFF "
     "image stacks and track groups, and a malformed stream (out-of-range frame, empty slice, empty crop, slicing a processed "
     "kymograph) whose errors must repeat identically. Every step is compared with a freshly built twin (only the ancestor "
     "derivations replayed) and with the Lean state machine; after the history every image/timestamp array handed out by a "
@@ -1121,9 +1129,10 @@ def scan_obj(P, L, frames, k, lead_in, dead, frame_dead, fast, slow, *, late=0, 
 class Tracker:
     """what the generator has to know about the objects of a history to emit valid derivations"""
 
-    def __init__(self, fam, obj):
+    def __init__(self, fam, obj, line_bias=False):
         self.fam = fam
         self.obj = obj
+        self.line_bias = line_bias  # time slices mostly keep exactly one scan line / a few whole lines
         if fam == "kymo":
             self.objs = [{"rows": obj["P"], "root": True, "kbp": False}]
         elif fam == "scan":
@@ -1142,6 +1151,32 @@ class Tracker:
         starts = [i for i in range(n) if self.obj["iw"][i] != 0 and (i == 0 or self.obj["iw"][i - 1] == 0)]
         t = T0 + rng.choice(starts or [0]) * dt + rng.choice([0, 0, 1, -1, dt])
         return t
+
+    def kymo_line_window(self, rng):
+        """a time window cut at scan-line starts: exactly one line (first / interior / last), the last line with an open
+        end, or a run of lines; the bounds are sometimes moved by a nanosecond or a sample (same lines selected)"""
+        L = line_starts_plain(self.obj)
+        n, dt = len(L), self.obj["dt"]
+        if n < 2:
+            return None, None
+        mode = rng.choice(["one", "one", "one", "last", "last", "first", "run"])
+        if mode == "one":
+            k = rng.randint(0, n - 1)
+            a, b = L[k], (L[k + 1] if k + 1 < n else None)
+        elif mode == "last":
+            a, b = L[n - 1], rng.choice([None, None, L[n - 1] + dt])
+        elif mode == "first":
+            a, b = rng.choice([None, L[0]]), L[1]
+        else:
+            k = rng.randint(0, n - 2)
+            j = rng.randint(k + 2, n)
+            a, b = L[k], (L[j] if j < n else None)
+        # start <= line start selects that line; stop in (start of line j-1, start of line j] ends before line j
+        if a is not None:
+            a -= rng.choice([0, 0, 0, 1, dt - 1])
+        if b is not None:
+            b -= rng.choice([0, 0, 0, 1, dt - 1])
+        return a, b
 
     def queries(self):
         if self.fam == "kymo":
@@ -1170,6 +1205,9 @@ class Tracker:
             elif choice == "kbp":
                 op = ["d", i, "kbp", 2.0 * m["rows"]]
                 m["kbp"] = True
+            elif choice == "slice" and self.line_bias and rng.chance(0.8):
+                a, b = self.kymo_line_window(rng)
+                op = ["d", i, "slice", a, b]
             elif choice == "slice":
                 a = rng.choice([None, None, self.kymo_times(rng)])
                 b = rng.choice([None, None, self.kymo_times(rng)])
@@ -1233,6 +1271,37 @@ def random_history(rng, fam, obj, length, p_derive=0.3):
             hist.append(tr.derive(rng, i))
         else:
             hist.append(["q", i, rng.choice(qs)])
+    return hist
+
+
+def random_history_derived(rng, fam, obj, length):
+    """source asked first, derived objects made and asked afterwards: 1-3 queries on the source, a derivation (kymograph
+    time slices mostly keep one scan line), then queries that mostly REPEAT a query asked before, on the newest object or
+    on one of its ancestors, with further derivations of the newest object in between"""
+    tr = Tracker(fam, obj, line_bias=True)
+    qs = tr.queries()
+    memo = [q for q in qs if q in ("lineTime", "pixelTime", "duration", "image.r", "ts.mean", "lineRanges", "shape", "start")]
+    hist, asked = [], []
+
+    def ask(i):
+        q = rng.choice(asked) if asked and rng.chance(0.6) else rng.choice(memo if rng.chance(0.6) else qs)
+        asked.append(q)
+        hist.append(["q", i, q])
+
+    for _ in range(rng.randint(1, min(3, max(1, length - 2)))):
+        ask(0)
+    while len(hist) < length:
+        n = len(tr.objs)
+        if n < 5 and (n == 1 or rng.chance(0.3)):
+            op = tr.derive(rng, n - 1)
+            if fam == "kymo" and op[2] not in ("slice", "copy") and rng.chance(0.5):
+                # mostly time slices (and slices of slices): replace the registered view by a slice
+                tr.objs[-1] = dict(tr.objs[n - 1])
+                a, b = tr.kymo_line_window(rng)
+                op = ["d", n - 1, "slice", a, b]
+            hist.append(op)
+        else:
+            ask(rng.choice([n - 1, n - 1, n - 1, rng.randint(0, n - 1)]))
     return hist
 
 
@@ -1314,6 +1383,63 @@ SCAN_DERIVS = [
     lambda t, h: ["d", t, "cropxy", 0, 1, 0, 1],
     lambda t, h: ["d", t, "copy"],
 ]
+
+
+def line_starts_plain(obj):
+    """timestamp of the first sample of every scan line, from the info wave alone (lines are separated by dead time)"""
+    iw, dt = obj["iw"], obj["dt"]
+    return [T0 + i * dt for i in range(len(iw)) if iw[i] != 0 and (i == 0 or iw[i - 1] == 0)]
+
+
+def line_slices(obj):
+    """time windows [a, b) that keep exactly ONE scan line - the first, every interior one, the last (open ends where the
+    window touches an end of the kymograph) - and the window that drops the first line only.  A one-line kymograph has a
+    line time of its own (no dead time), a pixel time, image, timestamps, start and duration different from its source."""
+    L = line_starts_plain(obj)
+    n = len(L)
+    out = []
+    for k in range(n):
+        a = None if k == 0 else L[k]
+        b = None if k == n - 1 else L[k + 1]
+        if a is not None or b is not None:
+            out.append((a, b))
+    if n >= 3:
+        out.append((L[1], None))
+    return out
+
+
+def derive_after_query_histories(fam, obj, alphabet_q):
+    """histories in which an object is ASKED FIRST and a derived object is made and asked AFTERWARDS: nothing the source
+    (or a derived object) has memoised may reach the object derived from it.
+      [q0 a, D, q1 b]             every pair (a, b) of queries, every derivation D (one-line / last-line time slices, whole
+                                  slice, crop, copy, calibrate, downsample in time and position, flip; scans: frame ranges,
+                                  single frame, spatial crop, copy)
+      [D, q a, q a]               on the derived object twice, derived then source, source then derived
+      [q0 a, S, S', q2 a] and [S, q1 a, S', q2 a]   slice of a slice, for all pairs of line slices (kymographs)"""
+    out = []
+    if fam == "kymo":
+        slices = [["slice", a, b] for a, b in line_slices(obj)]
+        derivs = slices + [["slice", None, None], ["crop", 0, 1], ["copy"], ["kbp", 2.0 * obj["P"]], ["down", 2, 1]]
+        if obj["P"] >= 2:
+            derivs += [["down", 1, 2], ["flip"]]
+    else:
+        slices = []
+        derivs = [["frames", 0, 1], ["frames", 1, 2], ["frame", -1], ["cropxy", 0, 1, 0, 1], ["copy"]]
+    for d in derivs:
+        for a in alphabet_q:
+            for b in alphabet_q:
+                out.append([["q", 0, a], ["d", 0] + d, ["q", 1, b]])
+    for d in slices or derivs:
+        for a in alphabet_q:
+            out.append([["d", 0] + d, ["q", 1, a], ["q", 1, a]])
+            out.append([["d", 0] + d, ["q", 1, a], ["q", 0, a]])
+            out.append([["d", 0] + d, ["q", 0, a], ["q", 1, a]])
+    for d in slices:
+        for d2 in slices:
+            for a in alphabet_q:
+                out.append([["q", 0, a], ["d", 0] + d, ["d", 1] + d2, ["q", 2, a]])
+                out.append([["d", 0] + d, ["q", 1, a], ["d", 1] + d2, ["q", 2, a]])
+    return out
 
 
 def pure_derive(tr, rng, i, m):
@@ -1515,8 +1641,15 @@ def cases(tier, rng):
         alpha_q = kq if fam == "kymo" else sq
         derivs = (KYMO_DERIVS if quick else KYMO_DERIVS_MORE) if fam == "kymo" else SCAN_DERIVS
         allh = exhaustive_histories(fam, obj, alpha_q, derivs, 3)
+        seen = set()
         for h in allh:
             if len(h) <= 2 or not quick or keep_len3(h) or r3.chance(0.03):
+                seen.add(json.dumps(h))
+                yield {"stream": "small-scope", "family": fam, "obj": obj, "hist": h}
+        # asked first, derived afterwards (one-line / last-line time slices among the derivations); thorough: every query
+        for h in derive_after_query_histories(fam, obj, alpha_q if quick else Tracker(fam, obj).queries()):
+            if json.dumps(h) not in seen:
+                seen.add(json.dumps(h))
                 yield {"stream": "small-scope", "family": fam, "obj": obj, "hist": h}
     # object kinds without start-dependent state: every history of length <= 3 (F,d curves, channels) / <= 2 (+ a sample
     # of length 3: image stacks, track groups) over a reduced alphabet
@@ -1591,6 +1724,13 @@ def cases(tier, rng):
         hist = [fix_second_ref(o, nd, len(bad)) for o in hist]
         yield {"stream": "malformed", "family": fam, "obj": obj, "hist": hist + [["q", 0, "static.0"], ["q", 0, "image.r"]], "subseed": i,
                "mode": mode}
+    # ---- seeded random (forked last: the streams above stay what they were), source asked before its derived objects (time slices cut at scan-line starts)
+    r6 = rng.fork("c19-random-derived")
+    for i in range(150 if quick else 3000):
+        sub = r6.fork(i)
+        fam, obj, mode = random_confocal(sub)
+        yield {"stream": "random-derived", "family": fam, "obj": obj, "hist": random_history_derived(sub, fam, obj, sub.randint(3, 8)),
+               "subseed": i, "mode": mode}
 
 
 def fix_second_ref(o, nd, shift):
